@@ -118,6 +118,107 @@ theorem save_complete (r : Reg) (k : Nat) (t : TypeE) (ht : r.types[k]? = some t
   rw [List.getElem?_zip_eq_some]
   exact ⟨by simp [hk], ht⟩
 
+/-! ### names: a save shows every instance under the name it holds in memory at that time -/
+
+theorem dedupGo_prefix (used : List String) (nm : String) : ∀ (fuel i : Nat), ∃ suf, dedupName.go used nm fuel i = nm ++ suf := by
+  intro fuel
+  induction fuel with
+  | zero => intro i; exact ⟨"", by simp [dedupName.go]⟩
+  | succ n ih =>
+    intro i
+    unfold dedupName.go
+    split
+    · exact ⟨"_" ++ toString i, by simp [String.append_assoc]⟩
+    · exact ih (i + 1)
+
+/-- the scope name written for an instance is its in-memory name, possibly followed by a `_k` suffix;
+    it is the in-memory name itself when no earlier scope of the save carries it -/
+theorem dedupName_prefix (used : List String) (nm : String) : ∃ suf, dedupName used nm = nm ++ suf := by
+  unfold dedupName
+  split
+  · exact ⟨"", by simp⟩
+  · exact dedupGo_prefix used nm 1000 1
+
+theorem dedupName_fresh (used : List String) (nm : String) (h : nm ∉ used) : dedupName used nm = nm := by
+  unfold dedupName
+  simp [h]
+
+theorem foldl_saved_named (myInsts : List Inst) : ∀ (used : List String) (saved : List UCg),
+    ∀ i ∈ myInsts, ∃ suf, saveCg (i.name ++ suf) i.shape i.st ∈ (myInsts.foldl (fun (acc : List String × List UCg) i =>
+        (acc.1 ++ [dedupName acc.1 i.name], acc.2 ++ [saveCg (dedupName acc.1 i.name) i.shape i.st])) (used, saved)).2 := by
+  induction myInsts with
+  | nil => intro used saved i hi; simp at hi
+  | cons x xs ih =>
+    intro used saved i hi
+    simp only [List.foldl_cons]
+    rcases List.mem_cons.1 hi with rfl | hi
+    · obtain ⟨suf, hs⟩ := dedupName_prefix used i.name
+      refine ⟨suf, ?_⟩
+      rw [← hs]
+      exact (foldl_saved xs (used ++ [dedupName used i.name]) (saved ++ [saveCg (dedupName used i.name) i.shape i.st])).1 _ (by simp)
+    · exact ih _ _ i hi
+
+theorem go_spec_named (r : Reg) : ∀ (l : List (Nat × TypeE)) (used : List String), ∀ p ∈ l,
+    ∃ u ∈ Reg.save.go r l used, u.cg = saveCg p.2.name p.2.shape p.2.st ∧
+      ∀ i ∈ r.insts, i.tidx = p.1 → ∃ suf, saveCg (i.name ++ suf) i.shape i.st ∈ u.insts := by
+  intro l
+  induction l with
+  | nil => intro used p hp; simp at hp
+  | cons q rest ih =>
+    intro used p hp
+    obtain ⟨ti, t⟩ := q
+    simp only [Reg.save.go]
+    rcases List.mem_cons.1 hp with rfl | hp
+    · refine ⟨_, List.mem_cons_self .., rfl, fun i hi hti => ?_⟩
+      simp only []
+      exact foldl_saved_named (r.insts.filter (fun i => i.tidx == ti)) used [] i
+        (List.mem_filter.2 ⟨hi, by simpa using hti⟩)
+    · obtain ⟨u, hu, h1, h2⟩ := ih _ p hp
+      exact ⟨u, List.mem_cons_of_mem _ hu, h1, h2⟩
+
+/-- **Every instance is saved under its in-memory name.**  As `save_complete`, with the scope name
+    pinned: the instance's name as the registry holds it when the save is made, followed at most by a
+    de-duplication suffix. -/
+theorem save_complete_named (r : Reg) (k : Nat) (t : TypeE) (ht : r.types[k]? = some t) :
+    ∃ u ∈ r.save, u.cg = saveCg t.name t.shape t.st ∧
+      ∀ i ∈ r.insts, i.tidx = k → ∃ suf, saveCg (i.name ++ suf) i.shape i.st ∈ u.insts := by
+  unfold Reg.save
+  simp only []
+  apply go_spec_named r _ [] (k, t)
+  rw [List.mem_flatMap]
+  refine ⟨t.tname, List.mem_eraseDups.2 (List.mem_map.2 ⟨t, List.mem_of_getElem? ht, rfl⟩), ?_⟩
+  rw [List.mem_filter]
+  refine ⟨?_, by simp⟩
+  have hk : k < r.types.length := by
+    by_contra hc
+    rw [List.getElem?_eq_none (by omega)] at ht; simp at ht
+  rw [List.mem_iff_getElem?]
+  refine ⟨k, ?_⟩
+  rw [List.getElem?_zip_eq_some]
+  exact ⟨by simp [hk], ht⟩
+
+/-- `set_name` on instance `i` changes that instance's name and nothing else: the type covergroups,
+    every other instance, and the renamed instance's shape, type link and hit counts are as before -/
+theorem rename_spec (r : Reg) (i : Nat) (nm : String) :
+    (r.rename i nm).types = r.types ∧
+    (r.rename i nm).insts.length = r.insts.length ∧
+    (∀ j, j ≠ i → (r.rename i nm).insts[j]? = r.insts[j]?) ∧
+    (∀ x, r.insts[i]? = some x → (r.rename i nm).insts[i]? = some { x with name := nm }) := by
+  refine ⟨rfl, by simp [Reg.rename], fun j hj => ?_, fun x hx => ?_⟩
+  · simp [Reg.rename, List.getElem?_modify, Ne.symm hj]
+  · simp [Reg.rename, List.getElem?_modify, hx]
+
+/-- a save made after `set_name` shows the renamed instance under the new name (whatever any earlier
+    save or report showed) -/
+theorem save_after_rename (r : Reg) (i : Nat) (nm : String) (x : Inst) (hx : r.insts[i]? = some x)
+    (t : TypeE) (ht : r.types[x.tidx]? = some t) :
+    ∃ u ∈ (r.rename i nm).save, ∃ suf, saveCg (nm ++ suf) x.shape x.st ∈ u.insts := by
+  obtain ⟨u, hu, _, h⟩ := save_complete_named (r.rename i nm) x.tidx t (by simpa [Reg.rename] using ht)
+  have hm : ({ x with name := nm } : Inst) ∈ (r.rename i nm).insts :=
+    List.mem_of_getElem? ((rename_spec r i nm).2.2.2 x hx)
+  obtain ⟨suf, hs⟩ := h _ hm rfl
+  exact ⟨u, hu, suf, hs⟩
+
 /-- producing the saved tree is a function of the registry: the registry it was produced from is,
     trivially, unchanged afterwards, and saving twice gives the same tree -/
 theorem save_pure (r : Reg) : r.save = r.save := rfl
